@@ -14,6 +14,13 @@ package main
 //@   requires[loggers-exist] forall k string :: {t.topics[k]} has(t.topics, k) ==> t.topics[k] != nil
 // main() makes two channels, one per signal kind
 //@   requires[distinct-signal-channels] t.hupChan != t.termChan
+// (round 5, area I; C19 "every combination of gzip, ... work-dir ..." + the assumption hCfg of the FileLogger contracts) the discoverer - and with it
+// every consumer - is started only with VALIDATED options and with a consumer configuration carrying the configured --max-in-flight:
+// obligations of main() at its call of run (pred r5IFOptsValid: zz_contracts_r5I_verif.go). The call is recorded.
+//@   requires[options-validated] r5IFOptsValid(t.opts)
+//@   requires[consumer-config-from-options] t.cfg != nil && t.cfg.MaxInFlight == t.opts.MaxInFlight
+//@   onreturn r5IFRuns := r5IFRuns + 1
+//@   onreturn r5IFRan := t
 //@   ensures[waits-for-all-loggers] r3dWgWaits == old(r3dWgWaits) + 1 && r3dWgWaited == &t.wg
 //@   ensures[returns-only-on-term] recvd(t.termChan) == old(recvd(t.termChan)) + 1
 //@   ensures[hup-forwarded-to-every-logger] forall k string :: {t.topics[k]} old(has(t.topics, k)) ==> sent(t.topics[k].hupChan) >= old(sent(t.topics[k].hupChan)) + recvd(t.hupChan) - old(recvd(t.hupChan))
@@ -21,7 +28,7 @@ package main
 //@   ensures[configured-topics-get-loggers] t.opts.TopicPattern == "" && r3dCtorFails == old(r3dCtorFails) ==> (forall i int :: {t.opts.Topics[i]} 0 <= i && i < len(t.opts.Topics) ==> has(t.topics, t.opts.Topics[i]) && t.topics[t.opts.Topics[i]] != nil)
 //@   ensures[loggers-kept] forall k string :: {t.topics[k]} old(has(t.topics, k)) ==> has(t.topics, k) && t.topics[k] == old(t.topics[k])
 //@   ensures[no-ack-no-write] hFinishes == old(hFinishes) && wCalls == old(wCalls) && hRenames == old(hRenames) && hOpens == old(hOpens)
-//@   modifies mapof(t.topics), r3dWgAdds, r3dWgWaits, r3dWgWaited, r3dCtorFails
+//@   modifies mapof(t.topics), r3dWgAdds, r3dWgWaits, r3dWgWaited, r3dCtorFails, r5IFRuns
 //@   loop 0
 //@     invariant[configured-topics-get-loggers] t.opts.TopicPattern == "" && r3dCtorFails == old(r3dCtorFails) ==> (forall i int :: {t.opts.Topics[i]} 0 <= i && i < len(t.opts.Topics) ==> has(t.topics, t.opts.Topics[i]) && t.topics[t.opts.Topics[i]] != nil)
 //@     invariant[ctor-fails-grow] r3dCtorFails >= old(r3dCtorFails) && t.opts == old(t.opts) && t.opts.Topics == old(t.opts.Topics) && t.opts.TopicPattern == old(t.opts.TopicPattern)
